@@ -307,5 +307,63 @@ class PubkeyGrid(Family):
         return ('valid' if want else 'invalid'), True
 
 
+class ObjectHistories(Family):
+    """several key objects alive at once and sequences of calls on one object: every public-key object verifies with its
+    *own* key whatever other key objects were created or used in between; a CECKey reports its public key in the
+    compression form selected last"""
+    name = 'key_object_histories'
+    engine = 'E2'
+    nontrivial_rule = 'every case'
+
+    def cases(self, shard, tier):
+        for order in itertools.permutations(range(3)):
+            for comp in (True, False):
+                yield ('pubkeys_alive', list(order), comp)
+        for seq in itertools.product((True, False), repeat=3):
+            for si in range(3):
+                yield ('compression_sequence', list(seq), si)
+        for ch_seq in itertools.permutations(C.CHAINS, 2):
+            yield ('wif_across_chains', list(ch_seq), 0)
+
+    def check(self, case):
+        import bitcoin
+        from bitcoin.core.key import CPubKey, CECKey
+        from bitcoin.wallet import CBitcoinSecret
+        kind, a, b = case
+        h = DIGESTS[6]
+        if kind == 'pubkeys_alive':
+            secs = K.SECRETS[:3]
+            pubs = [CPubKey(EC.pubkey(s, b)) for s in secs]
+            sigs = [EC.der_encode(*EC.low_s(*EC.sign_with_nonce(s, h, 999))) for s in secs]
+            for i in a:
+                for j in range(3):
+                    got = pubs[i].verify(h, sigs[j])
+                    if got != (i == j):
+                        raise Viol('with three public-key objects alive, key %d %s the signature of key %d' % (i, 'accepts' if got else 'rejects', j), i == j, got)
+                if not pubs[i].is_fullyvalid or bytes(pubs[i]) != EC.pubkey(secs[i], b):
+                    raise Viol('public-key object %d changed' % i, None, None)
+            return kind, True
+        if kind == 'compression_sequence':
+            sec = K.SECRETS[b]
+            k = CECKey()
+            k.set_secretbytes(K.sbytes(sec))
+            for comp in a:
+                k.set_compressed(comp)
+                for rep in (0, 1):
+                    got = k.get_pubkey()
+                    if bytes(got) != EC.pubkey(sec, comp):
+                        raise Viol('CECKey.get_pubkey() after set_compressed(%s) in sequence %r' % (comp, a), EC.pubkey(sec, comp).hex(), bytes(got).hex())
+            return kind, True
+        first, second = a
+        sb = K.sbytes(K.SECRETS[4])
+        for ch in (first, second, first):
+            bitcoin.SelectParams(ch)
+            key = CBitcoinSecret.from_secret_bytes(sb, True)
+            want = B58.check_encode(SECRET_PREFIX[ch], sb + b'\x01')
+            if str(key) != want or bytes(CBitcoinSecret(want))[:32] != sb:
+                raise Viol('WIF on %s after selecting %r' % (ch, a), want, str(key))
+        return kind, True
+
+
 def families(tier):
-    return [Derivation(), Signing(), LowS(), VerifyTable(), PubkeyGrid()]
+    return [Derivation(), Signing(), LowS(), VerifyTable(), PubkeyGrid(), ObjectHistories()]
